@@ -21,6 +21,7 @@ RULE = ('fault-free worlds with suites nested to depth 4, layer/level declaratio
         'reference model embeds the pattern (C08) and level/nearest-declaration (C09) semantics. '
         'distinct = digest of hook sequences + option keys; non-trivial = a filter removed '
         'something or children ran')
+RULE += (' ' + "Later additions: one spec in eight injects a spawn failure for one layer (only that layer's tests are excused); command-line use (sys.argv read by the runner) with a test that changes sys.argv in place before layers are resumed.")
 T_FRAGS = ['test_a', 'test_b', 'test_c', 'TC0', 'TC1', 'test_m0', 'test_m1', r'TC[01]\.test_a',
            '(?i)TEST_A', '(?i)tc1', r'(test_)a.*\1a', r'(?P<n>TC0).*(?P=n)',
            '^test_[ab] ', r'test_d\)$', '.', 'nomatch', 'm0.TC1']
